@@ -117,6 +117,16 @@ func genOps(stream string, full bool, ops []string) []GenCase {
 			}
 		}
 	}
+	// operands written with leading zeros are decimal like any other integer literal
+	if len(ops) > 2 {
+		for _, p := range [][2]string{{"010 + 1", "11"}, {"0100 - 100", "0"}, {"007 * 2", "14"}, {"09 - 1", "8"}, {"08 + 08", "16"}, {"1 + 010 * 010", "101"}, {"-010", "-10"}, {"0100 / 010", "10"},
+			{"0100 % 7", "2"}, {"[1, 2, 3, 4, 5, 6, 7, 8, 9, 10, 11][010]", "11"}, {"len(1..010)", "10"}, {"010 == 10 ? 1 : 2", "1"}, {"010 < 9 ? 1 : 2", "2"}} {
+			c := Case{ID: fmt.Sprintf("%s-lz-%d", stream, id), Opt: id%2 == 0, Script: "return " + p[0] + ";", Tags: []string{"leading-zero-operand"},
+				Runs: []Run{{Obj: HV{Kind: "nil"}, Polls: defaultPolls}}, Show: []string{"spec"}}
+			id++
+			out = append(out, GenCase{Case: c, Stream: stream, NonTrivial: true, Role: "expectint:" + p[1]})
+		}
+	}
 	// unary operators and index
 	for _, a := range pool {
 		for _, u := range []string{"-", "!", "√"} {
@@ -172,7 +182,8 @@ func truthValues() []truthVal {
 	var out []truthVal
 	lit := func(e, cl string) { out = append(out, truthVal{expr: e, class: "literal:" + cl}) }
 	for _, e := range []string{"true", "false", "0", "1", "-1", "2", "255", "256", "257", "512", "1024", "4096", "32768", "65280", "65534", "65535", "65536", "70000", "131072", "4294967296", "-256", "256.0", "0.0", "0.5", "-0.5", "\"\"", "\"a\"", "\"0\"", "\"false\"",
-		"[]", "[0]", "[1, 2]", "{}", "{\"a\": 0}", "/a/", "Missing"} {
+		"\" \"", "\"  \"", "\"\\t\"", "\"\\n\"", "\" \\n \"", "\"null\"", "\"0.0\"", "' '",
+		"[]", "[0]", "[1, 2]", "[[]]", "[\"\"]", "{}", "{\"a\": 0}", "{\"\": \"\"}", "/a/", "//", "Missing"} {
 		lit(e, "v")
 	}
 	for _, e := range []string{"1 < 2", "2 < 1", "\"a\" == \"a\"", "1.5 != 1.5", "\"x\" ~= /x/", "\"x\" !~ /x/", "1 in [1]", "2 in [1]"} {
@@ -185,6 +196,7 @@ func truthValues() []truthVal {
 		{"FT", HV{Kind: "bool", B: true}}, {"FF", HV{Kind: "bool", B: false}}, {"FZ", HV{Kind: "int", IntKind: "int", I: 0}},
 		{"FP", HV{Kind: "int", IntKind: "int", I: 5}}, {"FN", HV{Kind: "int", IntKind: "int", I: -5}}, {"FFZ", HV{Kind: "f64", F: 0}},
 		{"FFP", HV{Kind: "f64", F: 0.25}}, {"FFN", HV{Kind: "f64", F: -0.25}}, {"FSE", HV{Kind: "str", S: ""}}, {"FSN", HV{Kind: "str", S: "x"}},
+		{"FSB", HV{Kind: "str", S: " "}}, {"FST", HV{Kind: "str", S: "\t\n"}},
 		{"FAE", HV{Kind: "slice", ElemKind: "int", IntKind: "int"}}, {"FAN", HV{Kind: "slice", ElemKind: "int", IntKind: "int", Els: []HV{{Kind: "int", IntKind: "int", I: 0}}}},
 		{"FHE", HV{Kind: "map", ElemIface: true, KeyKind: "str"}},
 		{"FHN", HV{Kind: "map", ElemIface: true, KeyKind: "str", Entries: [][2]HV{{{Kind: "str", S: "k"}, {Kind: "bool", B: false}}}}},
